@@ -218,6 +218,16 @@ func streamOf(sc Script) []byte {
 
 var refPlugin = atpx.TestPlugin(func() *atpx.Gates { g := atpx.NewGates(); g.OpenAll(); return g }(), nil)
 
+func pokeDataOK(data any) (ok bool) {
+	defer func() {
+		if recover() != nil {
+			ok = false
+		}
+	}()
+	_, err := refPlugin.StepsValue["do"].SignalHandlers()["poke"].DataSchema().Unserialize(data)
+	return err == nil
+}
+
 // expect reads the stream the way the statement describes the server: a start value, then frames until the first
 // one that cannot be decoded as a runtime message, a client-done, or the end of the input.
 func expect(sc Script) expectation {
@@ -289,7 +299,9 @@ func expect(sc Script) expectation {
 				ex.abnormal++
 				continue
 			}
-			if d, ok := sm.Data.(map[any]any); !ok || d["x"] == nil {
+			// bad signal data is a problem only if the signal's own data schema rejects it (a bare `false` is the
+			// single-property shorthand for {x: 0} and perfectly valid)
+			if !pokeDataOK(sm.Data) {
 				ex.problems++
 				ex.abnormal++
 			}
@@ -475,6 +487,19 @@ func genScript(t *rapid.T) Script {
 				e.Extra = true
 			}
 			sc.Elems = append(sc.Elems, e)
+			// often followed by a signal addressed to this very run - whatever became of its work-start (rejected
+			// input, unknown step, still gated, already finished)
+			if rapid.IntRange(0, 2).Draw(t, "followUpSignal") == 0 {
+				f := Elem{Kind: "signal", Run: e.Run, Signal: rapid.SampledFrom([]string{"poke", "poke", "poke", "no-such-signal"}).Draw(t, "followSignal")}
+				if rapid.IntRange(0, 4).Draw(t, "badFollowData") == 0 {
+					v := gen.Hostile(1).Draw(t, "followData")
+					f.Payload = &v
+				}
+				sc.Elems = append(sc.Elems, f)
+				if rapid.IntRange(0, 3).Draw(t, "followTwice") == 0 {
+					sc.Elems = append(sc.Elems, f)
+				}
+			}
 		case 5, 6:
 			e := Elem{Kind: "signal", Run: rapid.SampledFrom(append(runs, "never-started", "")).Draw(t, "sigRun"), Signal: rapid.SampledFrom([]string{"poke", "poke", "no-such-signal", "<payload>"}).Draw(t, "signal")}
 			if rapid.IntRange(0, 3).Draw(t, "badSignalData") == 0 {
